@@ -144,7 +144,15 @@ func generateInjectors(g *gen, pkg *packages.Package) (injectorFiles []*ast.File
 	oc := newObjectCache([]*packages.Package{pkg})
 	injectorFiles = make([]*ast.File, 0, len(pkg.Syntax))
 	ec := new(errorCollector)
-	for _, f := range pkg.Syntax {
+	// Visit the files in name order, which is the order the loader reports
+	// for a directory or import path pattern. For a pattern that lists the
+	// files of the package, the loader keeps the command line's order, and
+	// the output must not depend on how the package was named.
+	files := append([]*ast.File(nil), pkg.Syntax...)
+	sort.SliceStable(files, func(i, j int) bool {
+		return pkg.Fset.File(files[i].Pos()).Name() < pkg.Fset.File(files[j].Pos()).Name()
+	})
+	for _, f := range files {
 		for _, decl := range f.Decls {
 			fn, ok := decl.(*ast.FuncDecl)
 			if !ok {
